@@ -125,6 +125,15 @@ CHECKS.update({
    note="malformed inputs are judged for totality/memory safety only; tech:optionfile is excluded from fuzzing (it reads files)"),
 })
 
+CHECKS.update({
+ "C16": dict(level="exploration", engine="rapidcheck", design="3/C16",
+   technique="rapidcheck-generated calls of every registered binding (src/gsl/amplgsl.cc compiled against a stand-in funcadd.h, ASan+UBSan) in all request modes; oracle: "
+             "returns/deterministic/no silent NaN/error on NaN and integer-argument derivatives, and returned partials vs Ridders extrapolation of the binding's own values",
+   text="About 80000 generated calls per quick run over all 343 registered functions x argument classes (regular, near singular, zero, negative, huge/tiny, NaN, "
+        "non-integers for integer arguments) x value / first / first+second derivatives x constant masks. Two recorded findings are excluded by signature and probed.",
+   note="derivative comparison is made only where the numerical derivative is well resolved (about 1 call in 6); 1% tolerance finds formula errors, not last-digit inaccuracy"),
+})
+
 NOT_APPLICABLE = []
 
 def main():
